@@ -397,6 +397,212 @@ def gen_install_case(rng, stats):
     return {"config": cfg, "lang": "en-us", "units": units}
 
 
+UNKNOWN_WORDS = ["xyzzy", "qwertyuiop", "meterz", "go(9)", "forward(2)", "ten-meters", "zzz"]     # none is in en-us/dict.txt
+
+
+def gen_refused_case(rng, stats):
+    """error/recovery paths of the grammar-setting calls on ONE decoder: a grammar G is active, then one or more calls
+    that the library must REFUSE (alignment text with an out-of-dictionary word at position 0..n, JSGF text that parses
+    but names an out-of-dictionary word / has a syntax error / has no public rule, FSG file with an out-of-dictionary
+    word / malformed), then decoding: every later result is judged against G (run_case keeps the reference of the last
+    ACCEPTED call; the harness keeps its loaded-grammar block on a non-zero return), until a later accepted call."""
+    f = stats["features"]
+    stats.setdefault("model", {})
+    stats["model"]["en-us"] = stats["model"].get("en-us", 0) + 1
+    cfg = {}
+    if rng.chance(0.25):
+        cfg["lw"] = rng.choice(["1.0", "10"])
+    if rng.chance(0.2):
+        cfg.update(beam="1e-80", pbeam="1e-80", wbeam="1e-60")
+
+    def good():
+        k = rng.weighted([("align", 4), ("jsgf", 3), ("fsg", 3)])
+        f["refused_family_active_" + k] = f.get("refused_family_active_" + k, 0) + 1
+        if k == "align":
+            return {"kind": "align", "text": rng.choice(["go forward ten meters", "go forward ten meters", "go forward ten",
+                                                         "go backward ten meters", "forward ten meters"])}
+        if k == "jsgf":
+            return rng.choice([gen_multipublic(rng, stats)[0],
+                               {"kind": "jsgf", "text": "#JSGF V1.0;\ngrammar t;\npublic <s> = go (forward | backward) ten [meters];\n"}])
+        return {"kind": "fsg", "text": (DATA / rng.choice(["goforward.fsg", "goforward2.fsg"])).read_text()}
+
+    def utt():
+        nn = rng.choice([44580, 44580, rng.range(30000, 44580)])
+        stats["audio"]["refused_family"] = stats["audio"].get("refused_family", 0) + 1
+        return {"audio": [{"src": "goforward.raw", "a": 0, "b": nn}], "plan": gen_plan(rng, nn, stats)}
+
+    def bad_words():
+        # a word sequence with exactly one out-of-dictionary word at position k (0 = first … n = last)
+        base = list(SENT_EN) if rng.chance(0.6) else [pick_word(rng, "en-us") for _ in range(rng.range(1, 6))]
+        n = rng.range(1, len(base))
+        k = rng.weighted([(0, 2), (1, 3), (2, 3), (n - 1, 2)])
+        k = min(k, n - 1)
+        ws = base[:n]
+        ws[k] = rng.choice(UNKNOWN_WORDS)
+        if rng.chance(0.3):                       # the known prefix alone is NOT the active sentence's prefix
+            ws = [pick_word(rng, "en-us") for _ in range(k)] + ws[k:]
+        return ws, k
+
+    def refused():
+        k = rng.weighted([("align_unknown", 6), ("jsgf_oov", 3), ("fsg_oov", 3), ("jsgf_syntax", 1), ("jsgf_nopublic", 1),
+                          ("fsg_malformed", 1)])
+        if k == "align_unknown":
+            ws, pos = bad_words()
+            key = f"refused_align_unknown_word_at_position_{pos if pos < 3 else '3plus'}"
+            f[key] = f.get(key, 0) + 1
+            return {"kind": "align", "text": rng.choice([" ", "  ", "\t"]).join(ws)}
+        f["refused_" + k] = f.get("refused_" + k, 0) + 1
+        if k == "jsgf_oov":
+            ws, _ = bad_words()
+            return {"kind": "jsgf", "text": f"#JSGF V1.0;\ngrammar r;\npublic <s> = {' '.join(w.replace('(', '_').replace(')', '').replace('-', '_') for w in ws)};\n"}
+        if k == "fsg_oov":
+            ws, _ = bad_words()
+            lines = ["FSG_BEGIN r", f"NUM_STATES {len(ws) + 1}", "START_STATE 0", f"FINAL_STATE {len(ws)}"]
+            lines += [f"TRANSITION {i} {i + 1} 1.0 {w}" for i, w in enumerate(ws)]
+            return {"kind": "fsg", "text": "\n".join(lines + ["FSG_END"]) + "\n"}
+        if k == "jsgf_syntax":
+            return {"kind": "jsgf", "text": "#JSGF V1.0;\ngrammar r;\npublic <s> = go ( forward ten;\n"}
+        if k == "jsgf_nopublic":
+            return {"kind": "jsgf", "text": "#JSGF V1.0;\ngrammar r;\n<s> = go forward;\n"}
+        return {"kind": "fsg", "text": "FSG_BEGIN r\nNUM_STATES 2\nSTART_STATE 0\nFINAL_STATE 1\nTRANSITION 0 5 1.0 go\nFSG_END\n"}
+
+    units = [{"grammar": good(), "utts": [utt()] if rng.chance(0.5) else []}]
+    for _ in range(rng.weighted([(1, 5), (2, 3), (3, 1)])):
+        g = refused()
+        u = {"grammar": g, "utts": [utt() for _ in range(rng.weighted([(1, 6), (2, 2), (0, 1)]))], "expect_refused": True}
+        if g["kind"] == "jsgf" and rng.chance(0.3):
+            u["install"] = "file"
+        units.append(u)
+    if not any(u["utts"] for u in units[1:]):
+        units[-1]["utts"] = [utt()]
+    if rng.chance(0.35):                           # … and an accepted switch afterwards
+        units.append({"grammar": good(), "utts": [utt()]})
+    return {"config": cfg, "lang": "en-us", "units": units}
+
+
+# word → (first sample, end sample) of that word in goforward.raw (frames 46–63, 64–116, 117–152, 153–210 of the
+# alignment of "go forward ten meters", 160 samples per frame)
+GOFORWARD_WORD_SPANS = {"go": (7360, 10240), "forward": (10240, 18720), "ten": (18720, 24480), "meters": (24480, 33760)}
+LONG_COUNTS_QUICK = [129, 255, 256, 300, 513]
+LONG_COUNTS_THOROUGH = [63, 64, 65, 127, 128, 129, 255, 256, 257, 258, 300, 511, 512, 513, 700, 1023, 1024, 1025, 2049]
+
+
+def gen_long_case(rng, stats, thorough, idx):
+    """results with MANY words (the word count crosses 64, 128, 256, 512, 1024 …: fixed-size buffers, 8/16-bit counters):
+    a phrase cut out of goforward.raw repeated N times, decoded against the alignment text of N phrases, a JSGF text or
+    an FSG file that loops over the phrase; every quick run has a 257-word result.  Hypothesis string, segmentation,
+    model backtrace and grammar acceptance are judged as for every other case."""
+    f = stats["features"]
+    stats.setdefault("model", {})
+    stats["model"]["en-us"] = stats["model"].get("en-us", 0) + 1
+    cfg = {}
+    if rng.chance(0.2):
+        cfg["fsgusefiller"] = "no"
+    counts = [257] if idx == 0 else []
+    pool = LONG_COUNTS_THOROUGH if thorough else LONG_COUNTS_QUICK
+    while len(counts) < (3 if thorough else 2):
+        counts.append(rng.choice(pool))
+    units = []
+    for n in counts:
+        phrase = rng.weighted([(("go",), 6), (("ten",), 2), (("go", "forward"), 2), (("forward", "ten"), 1),
+                               (("go", "forward", "ten", "meters"), 1)])
+        if not thorough and n > 300:
+            phrase = ("go",)                      # quick tier: the shortest word (18 frames) for the longest results
+        reps = (n + len(phrase) - 1) // len(phrase)
+        words = (list(phrase) * reps)[:n]
+        pieces = [{"src": "goforward.raw", "a": GOFORWARD_WORD_SPANS[w][0], "b": GOFORWARD_WORD_SPANS[w][1]} for w in words]
+        kind = rng.weighted([("align", 6), ("jsgf_loop", 2), ("fsg_loop", 2)])
+        if kind == "align":
+            gram = {"kind": "align", "text": " ".join(words)}
+        elif kind == "jsgf_loop":
+            gram = {"kind": "jsgf", "text": f"#JSGF V1.0;\ngrammar loop;\npublic <s> = ( {' '.join(phrase)} )+ [ {phrase[0]} ];\n"}
+        else:
+            m = len(phrase)
+            lines = ["FSG_BEGIN loop", f"NUM_STATES {m + 1}", "START_STATE 0", f"FINAL_STATE {m}"]
+            lines += [f"TRANSITION {i} {i + 1} 1.0 {w}" for i, w in enumerate(phrase)] + [f"TRANSITION {m} 0 0.9"]
+            gram = {"kind": "fsg", "text": "\n".join(lines + ["FSG_END"]) + "\n"}
+        key = f"long_{kind}_{n}_words"
+        f[key] = f.get(key, 0) + 1
+        stats["grammar"][gram["kind"]] = stats["grammar"].get(gram["kind"], 0) + 1
+        stats["audio"]["long_repeated_phrase"] = stats["audio"].get("long_repeated_phrase", 0) + 1
+        ns = sum(p["b"] - p["a"] for p in pieces)
+        chunks = list(range(0, ns, MAXCALL))
+        marks = {len(chunks) - 1 - rng.below(max(1, len(chunks) // 3))} if rng.chance(0.6) else set()
+        plan = ["start"]
+        for i, x in enumerate(chunks):
+            plan.append(["proc", min(MAXCALL, ns - x), 0, 0, 0])
+            if i in marks and i != len(chunks) - 1:
+                plan.append(["dump", f"mid{i}"])
+        plan += ["end", ["dump", "fin"]]
+        stats["chunking"]["long_family_32000"] = stats["chunking"].get("long_family_32000", 0) + 1
+        units.append({"grammar": gram, "utts": [{"audio": pieces, "plan": plan}]})
+    return {"config": cfg, "lang": "en-us", "units": units}
+
+
+def closer_families(c, stats, thorough):
+    """families added in round 3 (own random stream, so that the cases of the older families keep their seeds):
+    refused grammar switches followed by decoding, and results whose word count crosses 256"""
+    rng = vlib.Rng(c.seed * 7919 + 101)
+    out = []
+    for k in range(4 if not thorough else 80):
+        out.append((f"refuse{k}", gen_refused_case(rng, stats)))
+    for k in range(1 if not thorough else 6):
+        out.append((f"long{k}", gen_long_case(rng, stats, thorough, k)))
+    return out
+
+
+def closer_report(c, cases, results):
+    """measured coverage of the two round-3 families + the generator obligations that keep them from being vacuous"""
+    ref = {"cases": 0, "calls_expected_to_be_refused": 0, "of_them_refused_by_the_library": 0,
+           "results_judged_after_a_refused_call": 0, "of_them_with_a_hypothesis": 0}
+    lng = {"cases": 0, "final_results_by_word_count": {}, "partial_results_over_256_words": 0, "max_words": 0}
+    accepted_bad = []
+    for tag, cs in cases:
+        r = results.get(tag)
+        if r is None or r["crash"]:
+            continue
+        exp = [bool(u.get("expect_refused")) for u in cs["units"]]
+        if any(exp):
+            ref["cases"] += 1
+            ref["calls_expected_to_be_refused"] += sum(exp)
+            # r["loaded"]: one flag per grammar-setting call, in unit order (a config-installed first unit comes first too)
+            for ui, (e, ok) in enumerate(zip(exp, r["loaded"])):
+                if e and not ok:
+                    ref["of_them_refused_by_the_library"] += 1
+                elif e and ok:
+                    accepted_bad.append({"case": tag, "unit": ui, "grammar": cs["units"][ui]["grammar"]})
+            first = exp.index(True)
+            later_ok = next((i for i in range(first, len(exp)) if not exp[i]), len(exp))
+            for inf in r["infos"]:
+                m = re.match(r"u(\d+)t", inf["tag"])
+                if m and first <= int(m.group(1)) < later_ok:
+                    ref["results_judged_after_a_refused_call"] += 1
+                    ref["of_them_with_a_hypothesis"] += 1 if inf["hyp"] else 0
+        if tag.startswith(("long", "corpus-long")):
+            lng["cases"] += 1
+            for inf in r["infos"]:
+                nw = len((inf["hyp"] or "").split())
+                lng["max_words"] = max(lng["max_words"], nw)
+                if inf["final"] and nw:
+                    b = "<=64" if nw <= 64 else "65-128" if nw <= 128 else "129-256" if nw <= 256 else "257-512" if nw <= 512 else ">512"
+                    lng["final_results_by_word_count"][b] = lng["final_results_by_word_count"].get(b, 0) + 1
+                elif nw > 256:
+                    lng["partial_results_over_256_words"] += 1
+    c.oblige("generator: refused grammar-setting calls (out-of-dictionary word in an alignment text / JSGF / FSG, malformed text) "
+             "were followed by decoded utterances whose results were judged against the grammar of the last accepted call",
+             ref["results_judged_after_a_refused_call"] > 0 and ref["of_them_with_a_hypothesis"] > 0, ref)
+    c.oblige("every grammar text with an out-of-dictionary word / malformed text drawn by the refused-call family was refused",
+             not accepted_bad, accepted_bad[:3])
+    over = sum(v for k, v in lng["final_results_by_word_count"].items() if k in ("257-512", ">512"))
+    c.oblige("generator: a final result of more than 256 words was produced and judged in this run", over > 0, lng)
+    tie = {}
+    for tag, cs in cases:
+        for k, v in (results.get(tag) or {}).get("gs_tie", {}).items():
+            tie[k] = tie.get(k, 0) + v
+    c.cov.update({"refused_grammar_switch_family": ref, "long_result_family": lng,
+                  "grammar_setting_calls_replayed_on_Model/GrammarSet (return value + active grammar at every dump)": tie})
+
+
 def gen_grammar(rng, lang, stats):
     kind = rng.weighted([("jsgf", 6), ("fsg", 3), ("align", 2)])
     stats["grammar"][kind] = stats["grammar"].get(kind, 0) + 1
@@ -717,6 +923,8 @@ def case_ops(case, scratch, tag):
     for ui, u in enumerate(case["units"]):
         g = u["grammar"]
         inst = unit_install(case, ui)
+        for neww, like in u.get("addwords", []):     # vocabulary changed at run time BEFORE this unit's grammar is installed
+            ops.append(f"addlike {hx(neww)} {hx(like)}")
         if inst != "config" and tops[ui] != cur_top:
             ops.append("setcfg toprule " + ("-" if tops[ui] is None else hx(tops[ui])))
             cur_top = tops[ui]
@@ -734,6 +942,8 @@ def case_ops(case, scratch, tag):
             p = scratch / f"{tag}-u{ui}.fsg"
             p.write_text(g["text"])
             ops.append(f"fsgfile {p}")
+        for neww, like in u.get("postwords", []):    # … and AFTER it (decoder_add_word with update: the search is re-initialised)
+            ops.append(f"addlike {hx(neww)} {hx(like)}")
         if u.get("prestart"):
             ops.append(f"dump u{ui}prestart")
         for ti, t in enumerate(u["utts"]):
@@ -957,6 +1167,25 @@ def judge_dump(blk, drv, nfoff):
              {"hyp": unhex(rh), "segments": [unhex(x[1]) for x in X]})
         p3.append(d)
         p1.append(d)
+    # (C03) the same clause with "filler" read from the DICTIONARY (lines SD of the harness = dict_filler_word), not from
+    # the grammar's own marks (flag of the SW lines = fsg_model_is_filler), and the tie between the two
+    hd = drv.get("hypsegd")
+    if hd:
+        sw = {l.split()[1]: l.split() for l in blk if l.startswith("SW ")}
+        sd = {l.split()[1]: l.split()[2] for l in blk if l.startswith("SD ")}
+        dfill = {unhex(sw[i][2]) for i in sd if sd[i] == "1" and i in sw}
+        info["dict_filler_oracle"] = True
+        info["filler_segments"] = sum(1 for x in X if unhex(x[1]) in dfill)
+        info["alt_filler_segments"] = [unhex(x[1]) for x in X if unhex(x[1]) in dfill and "(" in unhex(x[1])]
+        info["alt_word_segments"] = [unhex(x[1]) for x in X if unhex(x[1]) not in dfill and unhex(x[1]) != "(NULL)" and unhex(x[1]).endswith(")")]
+        if hd[0] != "1":
+            p3.append(("hypothesis string is not the base forms of the segment words that are not filler words of the dictionary", True,
+                       {"hyp": unhex(rh), "segments": [unhex(x[1]) for x in X], "filler_words_of_the_dictionary_in_the_search_FSG": sorted(dfill)}))
+        if len(hd) > 1 and hd[1] != "1":
+            on_arc = {l.split()[5] for l in blk if l.startswith("SA ")}
+            p3.append(("the grammar's filler marks (fsg_model_is_filler) differ from the dictionary's (dict_filler_word) on a word that labels a "
+                       "transition of the search FSG", False,
+                       {"words (word, grammar mark, dictionary mark)": [(unhex(sw[i][2]), sw[i][3], sd.get(i)) for i in sw if sw[i][3] != sd.get(i) and i in on_arc][:8]}))
     if int(head[6]) > 0 and nfr != cur + nfoff:
         p3.append(("decoder_n_frames is not frames searched + the source's constant offset", True,
                    {"n_frames": nfr, "searched": cur, "offset_in_source": nfoff}))
@@ -1079,6 +1308,126 @@ def judge_jsgf_text(blk, drv, unit, unit_rules, info):
     return []
 
 
+_dict_cache = {}
+
+
+def dict_words(case):
+    """the words decoder_set_align_text can find with dict_wordid: first column of the configured dictionary and of the
+    acoustic model's noisedict, read here (loading is C16's subject); as bytes"""
+    cfg = case["config"]
+    hmm = Path(cfg.get("hmm", str(MODEL / "en-us")))
+    p = cfg["dict"].replace("@DATA", str(DATA)) if cfg.get("dict") else str(hmm / "dict.txt")
+    key = (p, str(hmm))
+    if key not in _dict_cache:
+        ws = set()
+        for f in (Path(p), hmm / "noisedict"):
+            if f.exists():
+                for line in f.read_bytes().split(b"\n"):
+                    t = line.split()
+                    if t and not line.startswith((b"##", b";;")):
+                        ws.add(t[0])
+        _dict_cache[key] = ws
+    return _dict_cache[key]
+
+
+def grammar_set_tie(case, ev):
+    """Model/GrammarSet (Props/C01Refuse) against the library, on every case: the grammar-setting calls of the session are
+    replayed on the model (driver `c01g`); compared: the return value of every call (alignment texts: predicted from
+    the text and the dictionary file alone) and, at every dump, the model's active grammar with the grammar the result
+    is judged against (alignment text: the G block of the dump = the chain; FSG file / JSGF: the unit of the last
+    accepted call).  -> (problems, counts)"""
+    import subprocess
+    units = case["units"]
+    known = set(dict_words(case))
+    lines, calls, probes, sent = ["reset"], [], [], set()
+    gi, active, ai = -1, None, 0
+    config_first = bool(units) and unit_install(case, 0) == "config"
+    for e in ev:
+        if e[0] == "cmd":
+            name, rep = e[1], e[2]
+            if name == "newdec" and config_first:
+                gi += 1
+                if rep is not None and rep[-1] == "1":
+                    lines.append(f"F {gi + 2} 1" if units[gi]["grammar"]["kind"] == "fsg" else f"J 1 1 {gi + 2} 1")
+                    calls.append((len(lines) - 1, 0, gi, "config"))
+                    active = gi
+            elif name == "addlike":
+                aw = case.get("addwords", [])
+                if rep is not None and ai < len(aw) and int(rep[1]) >= 0:
+                    known.add(aw[ai][0].encode())
+                ai += 1
+            elif name in ("jsgf", "jsgffile", "fsgfile", "align"):
+                gi += 1
+                if rep is None or gi >= len(units):
+                    break
+                rv = int(rep[-1])
+                if name == "align":
+                    text = units[gi]["grammar"]["text"].encode()
+                    for tok in set(re.split(rb"[ \t\n\r]+", text)) | set(re.split(rb"[ \t\n\r\f]+", text)) | \
+                            set(re.split(rb"[ \t\n\r]+", text.strip(b" \t\n\r\f"))):
+                        if tok in known and tok not in sent:
+                            sent.add(tok)
+                            lines.append("K " + hx(tok))
+                    lines.append(f"A {hx(text)} 1")
+                elif name == "fsgfile":
+                    if rv == -2:
+                        continue                    # fsg_model_readfile refused the file: decoder_set_fsg is never called
+                    lines.append(f"F {gi + 2} {1 if rv == 0 else 0}")
+                else:
+                    lines.append(f"J 1 1 {gi + 2} {1 if rv == 0 else 0}")
+                calls.append((len(lines) - 1, rv, gi, name))
+                if rv == 0:
+                    active = gi
+        elif e[0] == "dump":
+            probes.append((len(lines) - 1, active, e))
+    counts = {"calls": len(calls), "align_calls": sum(1 for c in calls if c[3] == "align"),
+              "refused_calls": sum(1 for c in calls if c[1] != 0), "dumps": len(probes)}
+    if not calls:
+        return [], counts
+    path = _driver[0] if _driver else vlib.driver_path()
+    r = subprocess.run([str(path), "c01g"], input=("\n".join(lines) + "\n").encode(), stdout=subprocess.PIPE,
+                       stderr=subprocess.PIPE, timeout=300)
+    out = r.stdout.decode(errors="replace").split("\n")
+    if r.returncode != 0 or len(out) < len(lines) or any(o == "bad-op" for o in out[:len(lines)]):
+        return [("model driver c01g failed", False, {"rc": r.returncode, "stderr": r.stderr.decode(errors="replace")[-300:]})], counts
+    probs = []
+    for li, rv, g, name in calls:
+        w = out[li].split()
+        if len(w) < 2 or w[0] != "R" or int(w[1]) != (0 if rv == 0 else -1):
+            probs.append(("return value of a grammar-setting call differs from Model/GrammarSet (alignment text: predicted from "
+                          "the text and the dictionary)", False,
+                          {"call": name, "unit": g, "library": rv, "model": out[li], "text": units[g]["grammar"]["text"][:200]}))
+
+    def state_at(li):
+        for k in range(li, -1, -1):
+            if out[k].startswith("R "):
+                return out[k].split()[2:]
+        return ["none"]
+    for li, act, e in ([] if probs else probes):
+        m = state_at(li)
+        if act is None:
+            ok = m == ["none"]
+        elif units[act]["grammar"]["kind"] != "align":
+            ok = m == ["id", str(act + 2)]
+        else:
+            blk = e[2]
+            gf = next((l.split() for l in blk if l.startswith("GF ")), None)
+            gw = {l.split()[1]: l.split()[2] for l in blk if l.startswith("GW ")}
+            ga = [l.split() for l in blk if l.startswith("GA ")]
+            if gf is None:
+                ok = False
+            else:
+                arcs = [(int(a[2]), int(a[3]), unhex(gw.get(a[5], "-"))) for a in ga]
+                marcs = [] if len(m) < 5 or m[4] == "-" else [(int(x.split(":")[0]), int(x.split(":")[1]), unhex(x.split(":")[2]))
+                                                               for x in m[4].split(",")]
+                ok = m[0] == "chain" and [int(m[2]), int(m[3]), int(m[1])] == [int(gf[1]), int(gf[2]), int(gf[3])] and arcs == marcs
+        if not ok:
+            probs.append(("the grammar a result is judged against is not the active grammar of Model/GrammarSet after the session's "
+                          "grammar-setting calls", False, {"dump": e[1], "model_active": " ".join(m)[:300], "judged_against_unit": act}))
+            break
+    return probs, counts
+
+
 def run_case(binp, case, scratch, tag, nfoff):
     """-> dict(ok, problems1, problems3, infos, crash, accounting)"""
     ops = case_ops(case, scratch, tag)
@@ -1194,6 +1543,8 @@ def run_case(binp, case, scratch, tag, nfoff):
                                   "differ from the frames the front end produces for the audio supplied", True,
                                   {"sum_of_returns": tot, "searched_in_end_utt": inend, "front_end_frames": ref, "n_frames": nfr}))
             started = False
+    gp, res["gs_tie"] = grammar_set_tie(case, ev)
+    res["p1"] += gp
     return res
 
 
@@ -1409,10 +1760,17 @@ def judge_step_output(hout, dout):
         infos.append(info)
         for st in b["steps"]:
             # frame stepRelB searchInvB indices quiet evalExact size active
-            if any(x != "1" for x in st[1:6]):
+            # … and (9th field) laterInvB: word entries >= 2 frames after their predecessors, live inner / exit states hold
+            # entries >= 2 frames old (Model/SearchLater.lean; proved for every reachable model state in Props/C01Later.lean)
+            # … and (10th-12th) the score guard of a word exit: fsgs->bestscore = frameBest of evalBest3 over the evaluated HMMs,
+            # ThreshLive bestscore wbeam, Fires bestscore wbeam (score of every new word entry)
+            verdict = st[1:6] + (st[8:12] if len(st) > 11 else ["missing"])
+            if any(x != "1" for x in verdict):
                 names = ["stepRelB", "searchInvB", "entry indices / table size", "pnode_active_next NULL and frame lists empty",
-                         "evalHist3 = the evaluated HMMs"]
-                failed = [n for n, x in zip(names, st[1:6]) if x != "1"]
+                         "evalHist3 = the evaluated HMMs", "laterInvB (a word exit / live inner state less than two frames after its history entry)",
+                         "fsgs->bestscore = max of the values the exact 3-state evaluator returns (frameBest/evalBest3)",
+                         "ThreshLive: bestscore + wbeam > WORST_SCORE", "Fires: every new word entry has score >= bestscore + wbeam"]
+                failed = [n for n, x in zip(names, verdict) if x != "1"]
                 probs.append(("the frame step of the real search is not a behaviour of the model: " + ", ".join(failed) + " false",
                               {"utt": b["tag"], "after_frames": int(st[0]), "verdict": st[1:6], "why": b["why"][:2]}))
                 break
@@ -1423,16 +1781,18 @@ def judge_step_output(hout, dout):
                 continue
             flags = v if f not in ("table", "build") else v[:1]
             if f == "lt":
-                flags = [v[0], v[1], v[3]]
+                # LexTreeOK, chainsEndB, no multiplex / odd HMM, LaterTopo lt.nst (3 or 5 emitting states: the hypothesis
+                # of C11_build_reachableL_search / C01_word_exit_later under which the exit clause forbids state 0 -> exit)
+                flags = [v[0], v[1], v[3]] + (v[4:5] if len(v) > 4 else ["missing"])
             if f == "start":
-                flags = v[:4]
+                flags = v[:4] + (v[6:7] if len(v) > 6 else ["missing"])   # + laterInvB
             if any(x != "1" for x in flags):
-                what = {"lt": "LexTreeOK / every sibling chain ends / no multiplex HMM: false on the dumped lextree",
+                what = {"lt": "LexTreeOK / every sibling chain ends / no multiplex HMM / 3 or 5 emitting states (LaterTopo): false on the dumped lextree",
                         "build": "the lextree the model builds (buildLexTree on the dumped FSG, pronunciations and ssid lookups) "
                                  "differs from the lextree the code built",
                         "consts": "WORST_SCORE / SENSCR_SHIFT / TMAT_WORST_SCORE of the build differ from the generated constants",
                         "pre": "the state before fsg_search_start is not all-cleared (an HMM outside the active lists is not cleared)",
-                        "start": "startRelB / searchInvB false on the state after fsg_search_start",
+                        "start": "startRelB / searchInvB / laterInvB false on the state after fsg_search_start",
                         "finish": "the state after fsg_search_finish is not the model's finish of the last state",
                         "table": "the history table at the end differs from the entries dumped frame by frame"}[f]
                 probs.append((what, {"utt": b["tag"], "verdict": v}))
@@ -1528,8 +1888,10 @@ def search_step_tie(c, thorough, replay_case=None):
                   "(abstract functions), dumped through the macros the lextree code uses",
                   "M10: that the relation StepRel covers fsg_search_step for EVERY input rests on reading the code; it is "
                   "checked (stepRelB, proved sound) on every frame of the decodes of this run.  Two facts about scores are "
-                  "used and checked per frame, not proved: a word exit fires only from a live exit score (the word beam "
-                  "threshold stays above WORST_SCORE) and hmm_vit_eval gives a live score only to a state whose winning "
+                  "used and checked per frame: a word exit fires only from a live exit score — derived (C01_word_exit_fires_only_live, "
+                  "C01_xlate_hmm3_best) from the guard out_score >= bestscore + wbeam of fsg_search_hmm_prune_prop under the per-frame "
+                  "evaluated inequality bestscore + wbeam > WORST_SCORE (a fact about score ranges, not proved), bestscore being the "
+                  "maximum of the values the exact 3-state evaluator returns (compared with fsgs->bestscore on every frame); and hmm_vit_eval gives a live score only to a state whose winning "
                   "predecessor was live (proved for the exact 3-state evaluation evalHist3 under emission scores <= 0; "
                   "5-state / arbitrary topologies are covered by the relation but not mirrored exactly)"]
     rng = vlib.Rng(c.seed * 1000003 + 4242)
@@ -1614,7 +1976,11 @@ def search_step_tie(c, thorough, replay_case=None):
     c.oblige("growth stage (M10), correspondence: on every short decode the lextree buildLexTree constructs from the dumped FSG, "
              "pronunciations and ssid lookups EQUALS the lextree the code built (node by node: owner, leaf, link, succ, sibling, "
              "ci_ext, ssid, tmatid, ppos, context set, logs2prob, root[s]), LexTreeOK holds on it, the state before "
-             "fsg_search_start is all-cleared, startRelB holds for start, stepRelB for EVERY frame, searchInvB on every state, "
+             "fsg_search_start is all-cleared, the HMMs have 3 or 5 emitting states (LaterTopo), startRelB holds for start, stepRelB "
+             "(incl. the exit clause OutFrom: the exit state of an evaluated HMM is never fed from state 0) for EVERY frame, "
+             "searchInvB and laterInvB (Props/C01Later: every word entry >= 2 frames after its predecessor) on every state, "
+             "the score guard of a word exit on every frame (fsgs->bestscore = frameBest of evalBest3 over the evaluated HMMs, "
+             "bestscore + wbeam > WORST_SCORE, every new word entry has score >= bestscore + wbeam: C01_word_exit_fires_only_live), "
              "evalHist3 reproduces every evaluated HMM, finish = the model's finish, accumulated table = final table", ok_all)
     c.oblige("lex-hyps-hold (C02 lextree = flat network, Props/C02Lex.lean): on every stepped decode lexHypsB M li = true, where li = the "
              "dict2pid tables / pronunciations / penalties the REAL lextree construction read (the same dump buildLexTree is compared "
@@ -1727,6 +2093,7 @@ def run_check(c, prop):
         cs = gen_case(c.rng, stats, thorough)
         ndec += sum(len(u["utts"]) for u in cs["units"])
         cases.append((f"g{len(cases)}", cs))
+    cases += closer_families(c, stats, thorough)     # refused grammar switches; results longer than 256 words
     results = {}
     workers = 4 if not thorough else 6
 
@@ -1844,6 +2211,7 @@ def run_check(c, prop):
         c.violation({"kind": sp[0][0], "problems": [{"what": k, "implementation_violates_property": v, "detail": d} for k, v, d in sp[:4]],
                      "case": small, "original_case_tag": tag, "failing_cases_in_this_run": len(failing),
                      "how_to_rerun": f"python3 tools/check.py {prop} --replay <this file>"}, any(p[1] for p in sp))
+    closer_report(c, cases, results)
     ndumps = agg["dumps"]
     c.oblige("checked precondition: wfHistB (⇔ WFHist) holds on every history table dumped from the real decoder", all_ok["wf"])
     c.oblige("correspondence: findExit/hyp/segs recomputed from the dump = what decoder_hyp / decoder_seg_iter returned, on every dump",
